@@ -33,6 +33,12 @@ RULE = ("case 'enc' = (frame 1..64 bytes, 1..8 pairwise non-overlapping in-frame
         "frame_by_id look-ups and matrix encodes/decodes in between, the frame added first, last or in the middle.  Whenever a frame "
         "of the matrix is the only one with its identifier, CanMatrix.encode / decode / decode_pycan with that identifier must give "
         "what the frame's own encode / decode gives (for the frame of the case: the result judged by the specification). "
+        "Sender histories: 55 % of the encode requests carry 'p' - 1..3 earlier requests made with the same frame before the one of the "
+        "case (the same keys with some or exactly one of the values changed - for a float the sign of zero -, or another subset of the "
+        "signals), the values held in ONE dict that is updated in place (item assignment / clear+update) or in a new dict per call, "
+        "through Frame.encode or CanMatrix.encode; the other requests get an earlier all-zero request in the same dict. Every call must "
+        "give what a frame of its own gives for a dict of its own, the last one the result judged by the specification, and leave the "
+        "dict as it was. Decode-then-encode is repeated with one dict that is updated from other received payloads first. "
         "30 % of the frames carry signals with offset, limits and start values (start value raw != 0); decoded values are kept while other payloads are decoded before they are re-encoded. Non-trivial = distinct case with at least one supplied non-zero value / non-constant payload.")
 PARTIAL = ["struct.pack rounding for floats is trusted: float values are supplied as exactly representable non-NaN patterns",
            "value-table labels in the data dict go through phys2raw (C04) and are not generated here"]
@@ -378,6 +384,101 @@ def matrix_history(fr, fd, m, data, payload, want):
     return None
 
 
+# ------------------------------------------------------------------------------------------
+# sender histories: requests made with the same frame before the request of the case
+#   p = {"how": 0 one dict, item assignment (keys that are no longer supplied deleted) | 1 one dict, clear() + update() |
+#               2 a new dict per call,
+#        "via": 0 Frame.encode | 1 CanMatrix.encode,
+#        "reqs": [[[name, raw], ...], ...]}        (in order; the request of the case follows; the foreign keys 'x' are in all of them)
+# ------------------------------------------------------------------------------------------
+def _other_value(rng, d, v):
+    lo, hi = F.raw_range(d)
+    if d[5]:
+        flipped = v ^ (1 << (d[2] - 1))             # the other sign: 0.0 <-> -0.0 compare equal
+        return rng.choice([flipped, flipped, F.rand_raw(rng, d)])
+    return rng.choice([lo + hi - v, F.rand_raw(rng, d), F.rand_raw(rng, d), 0 if lo <= 0 <= hi else lo])
+
+
+def gen_sender_history(rng, fd, d):
+    by_name = {s[0]: s for s in fd["sigs"]}
+    reqs = []
+    for _ in range(rng.choice([1, 1, 2, 3])):
+        c = rng.random()
+        if not d or c < 0.15:
+            sup = [s for s in fd["sigs"] if rng.random() < 0.6]
+            rng.shuffle(sup)
+            req = [[s[0], F.rand_raw(rng, s)] for s in sup]
+        elif c < 0.45:
+            i = rng.randrange(len(d))
+            req = [[k, _other_value(rng, by_name[k], v) if j == i else v] for j, (k, v) in enumerate(d)]
+        else:
+            req = [[k, _other_value(rng, by_name[k], v) if rng.random() < 0.6 else v] for k, v in d]
+        reqs.append(req)
+    return {"how": rng.choice([0, 0, 0, 1, 1, 2, 2]), "via": rng.choice([0, 0, 1]), "reqs": reqs}
+
+
+def _fit_history(p, fd, d):
+    """the history p for a smaller frame / request: requests keep the signals that are left"""
+    names = {s[0] for s in fd["sigs"]}
+    return dict(p, reqs=[[kv for kv in req if kv[0] in names] for req in p["reqs"]])
+
+
+def _default_history(c):
+    """requests without 'p': the same keys, all zero, in the dict that is used for the request afterwards"""
+    return {"how": 0, "via": 0, "reqs": [[[k, 0] for k, _ in c["d"]]]}
+
+
+def _call(f, *args):
+    try:
+        return list(f(*args))
+    except Exception as e:  # noqa
+        return "raised " + F.errname(e)
+
+
+HOW = ["with-the-same-dict-updated-in-place", "with-the-same-dict-cleared-and-filled-again", "with-another-dict"]
+
+
+def sender_history(fr, fd, p, final_pairs, xpairs, want):
+    """the requests of p, then the request of the case, as a sender makes them that keeps its values between the calls.  Every call
+    must give what a frame of its own gives for a dict of its own (the last one: `want`, the result the specification judges)"""
+    twin = F.mkframe(fd)
+    db = _matrix(fr, fd) if p["via"] else None
+    steps = [_values(fr, req + xpairs) for req in p["reqs"]] + [_values(fr, final_pairs)]
+    shared = {}
+    for n, items in enumerate(steps):
+        if p["how"] == 0:
+            keys = [k for k, _ in items]
+            for k in [k for k in shared if not any(type(k) is type(a) and k == a for a in keys)]:
+                del shared[k]
+            for k, v in items:
+                shared[k] = v
+        elif p["how"] == 1:
+            shared.clear()
+            shared.update(items)
+        else:
+            shared = dict(items)
+        before = [(k, repr(v)) for k, v in shared.items()]
+        got = _call(db.encode, fr.arbitration_id, shared) if db is not None else _call(fr.encode, shared)
+        exp = want if n == len(steps) - 1 else _call(twin.encode, dict(items))
+        if got != exp:
+            return "exc:result-depends-on-what-was-encoded-before-" + HOW[p["how"]]
+        if [(k, repr(v)) for k, v in shared.items()] != before:
+            return "exc:the-callers-values-dict-was-changed-by-encode"
+    return None
+
+
+def receiver_history(fr, fd, data, want):
+    """decode-then-encode as a gateway does it that keeps ONE dict of values and updates it from every received payload"""
+    vals = {}
+    out = None
+    db = _matrix(fr, fd) if sum(data) % 3 == 0 else None
+    for rx in ([b ^ 0xFF for b in data], [0] * len(data), [b ^ 0xFF for b in data], data):
+        for k, v in fr.decode(bytes(rx)).items():
+            vals[k] = v.raw_value
+        out = _call(db.encode, fr.arbitration_id, vals) if db is not None else _call(fr.encode, vals)
+    return None if out == want else "exc:decode-encode-differs-when-one-values-dict-is-updated-from-every-payload"
+
+
 def gen_frame(rng):
     n = rng.choice(F.ALL_LENGTHS if rng.random() < 0.6 else F.FD_LENGTHS)
     fd = {"size": n, "sigs": F.rand_disjoint_sigs(rng, n, maxn=8)}
@@ -405,6 +506,8 @@ def enc_case(rng, fd):
             c["x"] = x
     if rng.random() < 0.5:
         c["m"] = gen_matrix(rng)
+    if rng.random() < 0.55:
+        c["p"] = gen_sender_history(rng, fd, c["d"])
     return {"op": "enc", "c": c}
 
 
@@ -513,6 +616,8 @@ def observe(case):
         r = F.observe_encode(fr, pairs)
         if "ok" in r:
             odd = _other_ways(fr, c["f"], _values(fr, pairs), r["ok"])
+            if odd is None:
+                odd = sender_history(fr, c["f"], c.get("p") or _default_history(c), pairs, pairs[len(c["d"]):], r["ok"])
             if odd is None and "m" in c:
                 odd = matrix_history(fr, c["f"], c["m"], dict(_values(fr, pairs)), r["ok"], r["ok"])
             if odd is not None:
@@ -543,6 +648,9 @@ def observe(case):
         return {"err": "exc:matrix-decode-encode-raised-" + F.errname(e)}
     if list(b2) != list(b):
         return {"err": "exc:matrix-decode-encode-differs-from-frame-decode-encode"}
+    odd = receiver_history(fr, c["f"], c["data"], list(b))
+    if odd is not None:
+        return {"err": odd}
     if "m" in c:
         odd = matrix_history(fr, c["f"], c["m"], {k: v.raw_value for k, v in d.items()}, c["data"], list(b))
         if odd is not None:
@@ -593,6 +701,20 @@ def features(case, impl):
             elif st[0] in ("look", "use"):
                 yield "matrix:" + st[0] + "-in-between"
     if case["op"] == "enc":
+        p = c.get("p")
+        yield "sender-history=" + ("no" if p is None else "%d-earlier-requests" % len(p["reqs"]))
+        if p is not None:
+            yield "sender-history:" + HOW[p["how"]] + ("/matrix" if p["via"] else "/frame")
+            by_name = {s_[0]: s_ for s_ in c["f"]["sigs"]}
+            last = p["reqs"][-1]
+            if [k for k, _ in last] == [k for k, _ in c["d"]]:
+                diff = [(k, a, b) for (k, a), (_, b) in zip(last, c["d"]) if a != b]
+                yield "sender-history:last-request-before=" + ("same-values" if not diff else "one-value-differs" if len(diff) == 1
+                                                              else "several-values-differ")
+                if diff and all(by_name[k][5] and {a, b} == {0, 1 << (by_name[k][2] - 1)} for k, a, b in diff):
+                    yield "sender-history:only-the-sign-of-zero-differs"
+            else:
+                yield "sender-history:last-request-before=other-keys"
         yield "supplied=%d" % len(c["d"])
         yield "foreign-keys=%d" % len(c.get("x", []))
         for ks, _ in c.get("x", []):
@@ -630,14 +752,24 @@ def shrink_candidates(case):
                 yield {"op": case["op"], "c": dict(c, m={"id": m["id"], "h": m["h"][:i] + [st[:4] + [1, None]] + m["h"][i + 1:]})}
     if case["op"] == "enc":
         x = c.get("x", [])
+        p = c.get("p")
 
-        def mk(fd_, d_, x_):
+        def mk(fd_, d_, x_, p_=p):
             cc = {"f": fd_, "d": d_}
             if x_:
                 cc["x"] = x_
             if m is not None:
                 cc["m"] = m
+            if p_ is not None:
+                cc["p"] = _fit_history(p_, fd_, d_)
             return {"op": "enc", "c": cc}
+        if p is not None:
+            yield mk(fd, c["d"], x, None)
+            for i in range(len(p["reqs"])):
+                if len(p["reqs"]) > 1:
+                    yield mk(fd, c["d"], x, dict(p, reqs=p["reqs"][:i] + p["reqs"][i + 1:]))
+            if p["via"]:
+                yield mk(fd, c["d"], x, dict(p, via=0))
         for i in range(len(x)):
             yield mk(fd, c["d"], x[:i] + x[i + 1:])
         for i in range(len(c["d"])):
